@@ -24,12 +24,36 @@ GLOBAL = "metrics::recorder::GLOBAL_RECORDER"
 NOOP = "metrics::recorder::NOOP_RECORDER"
 
 
+def is_guard_ctor(f):
+    """role: the private constructor(s) of the scoped-installation guard"""
+    return f.dk in ("Fn", "AssocFn") and not f.j.get("exported") and not f.j.get("impl_trait") and "recorder::LocalRecorderGuard" in f.j.get("sig", "").split("->")[-1]
+
+
+def is_cell_load(f):
+    """role: the reader of the global recorder cell (returns Option<&'static dyn Recorder>)"""
+    ret = f.j.get("sig", "").split("->")[-1]
+    return f.dk == "AssocFn" and (f.j.get("impl_self") or "").endswith("cell::RecorderOnceCell") and "Option<&" in ret and "dyn metrics::recorder::Recorder" in ret
+
+
+KEEP = [is_guard_ctor, is_cell_load]
+
+
+def _calls_role(cs, fns):
+    names = {f.path for f in fns}
+    return (cs.resolved or cs.callee) in names or cs.callee in names
+
+
+def _sym_calls_role(d, fns):
+    d = strip_sym(d)
+    return isinstance(d, tuple) and d and d[0] == "call" and ({d[1], d[3]} & {f.path for f in fns})
+
+
 def _mentions_const(s, path):
     return any(isinstance(x, tuple) and len(x) >= 3 and x[0] == "const" and x[2] == path for x in sym_walk(s))
 
 
 def _stmts_mention(fn, path):
-    if path in repr(fn.j.get("promoted") or ""):
+    if path in repr(fn.promoted_bodies()):
         return True
     for i, k, s in fn.body.stmts():
         if s["k"] == "assign" and path in repr(s["rv"]):
@@ -38,26 +62,48 @@ def _stmts_mention(fn, path):
 
 
 def with_recorder_leaves(wr):
-    """Classifies the call sites of the user closure inside with_recorder (shared by C01.a and C02.a)."""
-    user_calls = []
+    """Classifies the recorder values the user closure may be invoked with inside with_recorder (shared by C01.a, C02.a
+    and C19.e).  A "leaf" is one definition site of the recorder argument together with the switch edges gating it, so
+    `if let .. { f(a) } else { f(b) }` and `let r = match .. { a, b }; f(r)` are the same three leaves."""
+    from facts import alternatives
+
+    leaves = []  # (callsite, def-bb, payload-sym)
+    n_calls = 0
     for c in nonforeign_calls(wr):
         if c.is_("FnOnce::call_once", "FnOnce<Args>::call_once"):
             a = arg_syms(c)
             root = strip_sym(a[0])
             if sym_arg(root) is not None and sym_arg(root)[0] == 0:
-                user_calls.append((c, a))
+                n_calls += 1
+                sy = Sym(c.fn)
+                # the argument tuple (recorder,) is built right before the call
+                for bb, tup, *_ in alternatives(c.fn, c.args[1], c.bb, sy):
+                    tup = strip_sym(tup)
+                    if tup[0] == "agg" and tup[3]:
+                        # locate the aggregate statement to follow its operand to the definition sites
+                        st = [s for s in c.body.blocks[bb]["s"] if s["k"] == "assign" and s["rv"]["k"] == "agg" and s["rv"].get("agg") == "tuple"]
+                        if st:
+                            for bb2, pay, *g in alternatives(c.fn, st[-1]["rv"]["ops"][0], bb, sy):
+                                leaves.append((c, bb2, pay, g[0] if g else ()))
+                            continue
+                        leaves.append((c, bb, tup[3][0], ()))
+                    else:
+                        leaves.append((c, bb, tup, ()))
 
     def is_get(d):
         return sym_is_call(d, "Cell<T>::get") and sym_arg(strip_sym(strip_sym(d)[2][0])) is not None
 
+    loads = wr.crate.role(is_cell_load)
+
     def is_try_load(d):
-        return sym_is_call(d, "RecorderOnceCell::try_load") and _mentions_const(d, GLOBAL)
+        return _sym_calls_role(d, loads) and _mentions_const(d, GLOBAL)
 
     found = {"local": None, "global": None, "noop": None}
-    for c, a in user_calls:
-        tup = strip_sym(a[1])
-        payload = strip_sym(tup[3][0]) if tup[0] == "agg" and tup[3] else tup
-        g = gates(c.body, c.bb)
+    other = []
+    info = []
+    for c, bb, payload, extra in leaves:
+        payload = strip_sym(payload)
+        g = gates(c.body, bb) + list(extra)
         some_get = any(lab == "Some" and is_get(d) for d, lab in g)
         none_get = any(lab == "None" and is_get(d) for d, lab in g)
         some_tl = any(lab == "Some" and is_try_load(d) for d, lab in g)
@@ -65,15 +111,23 @@ def with_recorder_leaves(wr):
         p = sym_through(payload, "NonNull<T>::as_ref")
         if p[0] == "field" and p[2] == "0":
             p = strip_sym(p[1])
-        if some_get and p[0] == "downcast" and p[2] == "Some" and is_get(p[1]):
+        if some_get and p[0] == "downcast" and p[2] == "Some" and is_get(p[1]) and found["local"] is None:
             found["local"] = c
-        elif none_get and some_tl and p[0] == "downcast" and p[2] == "Some" and is_try_load(p[1]):
+        elif none_get and some_tl and p[0] == "downcast" and p[2] == "Some" and is_try_load(p[1]) and found["global"] is None:
             found["global"] = c
-        elif none_get and none_tl and _mentions_const(payload, NOOP):
+        elif none_get and none_tl and _mentions_const(payload, NOOP) and found["noop"] is None:
             found["noop"] = c
-    tls = [c for c in nonforeign_calls(wr) if c.is_("RecorderOnceCell::try_load")]
+        else:
+            other.append((c, sym_str(payload)[:80]))
+        info.append({
+            "local_payload": p[0] == "downcast" and p[2] == "Some" and is_get(p[1]),
+            "global_payload": p[0] == "downcast" and p[2] == "Some" and is_try_load(p[1]),
+            "noop_payload": _mentions_const(payload, NOOP) and not any(x and x[0] == "call" for x in sym_walk(payload) if isinstance(x, tuple)),
+            "some_get": some_get, "none_get": none_get, "some_tl": some_tl, "none_tl": none_tl,
+        })
+    tls = [c for c in nonforeign_calls(wr) if _calls_role(c, loads)]
     gated = len(tls) == 1 and any(lab == "None" and is_get(d) for d, lab in gates(tls[0].body, tls[0].bb))
-    return {"n_user_calls": len(user_calls), "found": found, "try_loads": tls, "try_load_gated": gated}
+    return {"n_user_calls": len(leaves), "n_call_sites": n_calls, "found": found, "other": other, "info": info, "try_loads": tls, "try_load_gated": gated}
 
 
 def run(ctx):
@@ -97,8 +151,8 @@ def run(ctx):
         ok_outer = len(outer) == 1 and outer[0].fn is wr and _mentions_const(arg_syms(outer[0])[0], LOCAL)
         chk.ob("C01.a", f"{wr.path} [enters LOCAL_RECORDER.with]", ok_outer, "LOCAL_RECORDER.with(closure)" if ok_outer else "with_recorder does not run its body under LOCAL_RECORDER.with", wr.loc())
         res = with_recorder_leaves(wr)
-        if res["n_user_calls"] != 3:
-            chk.ob("C01.a", f"{wr.path} [three leaves]", False, f"expected the user closure to be invoked on exactly 3 leaves (local/global/noop), found {res['n_user_calls']}", wr.loc())
+        if res["n_user_calls"] != 3 or res["other"]:
+            chk.ob("C01.a", f"{wr.path} [three leaves]", False, f"expected the user closure to receive exactly 3 alternative recorders (local/global/noop), found {res['n_user_calls']} (unclassified: {res['other'][:2]})", wr.loc())
         else:
             found = res["found"]
             for leaf, want in (("local", "Some(local) edge -> f(local payload)"), ("global", "no local, Some(global) edge -> f(try_load payload)"), ("noop", "neither -> f(&NOOP_RECORDER)")):
@@ -110,14 +164,19 @@ def run(ctx):
 
     # ---------------- C01.b
     GUARD = "metrics::recorder::LocalRecorderGuard"
-    newf = one_method(chk, "C01.b", m, GUARD, "new")
+    ctors = m.role(is_guard_ctor)
+    newf = ctors[0] if len(ctors) == 1 else None
+    if newf is None:
+        chk.unrecognised("C01.b", "<anchor> private constructor of LocalRecorderGuard", f"expected exactly one non-exported function returning the guard, found {[f.path for f in ctors]}")
+    saved_field = None
     dropf = one_method(chk, "C01.b", m, GUARD, "drop", "Drop")
     if newf:
         ret = strip_sym(Sym(newf).local(0))
         ok, why = False, sym_str(ret)
-        if ret[0] == "agg" and "prev_recorder" in ret[4]:
-            prev = strip_sym(ret[3][ret[4].index("prev_recorder")])
+        for fname, prev in zip(ret[4], ret[3]) if ret[0] == "agg" else ():
+            prev = strip_sym(prev)
             if sym_is_call(prev, "LocalKey<T>::with") and _mentions_const(prev[2][0], LOCAL):
+                saved_field = fname
                 clos = strip_sym(prev[2][1])
                 cf = m.fn(clos[5]) if clos[0] == "agg" and clos[1] == "closure" else None
                 if cf is not None:
@@ -141,7 +200,7 @@ def run(ctx):
             a = arg_syms(reps[0])
             v = sym_through(a[1], "Option<T>::take", "Clone::clone")
             txt = repr(v)
-            ok = "'prev_recorder'" in txt and v[0] == "field"
+            ok = saved_field is not None and v[0] == "field" and v[2] == saved_field and sym_arg(sym_through(v[1])) is not None
             why = f"drop installs {sym_str(a[1])}"
         chk.ob("C01.b", f"{dropf.path} [restore]", ok, "drop replaces the TLS slot with self.prev_recorder" if ok else f"drop does not restore the saved pointer: {why}", dropf.loc())
         if len(outer) == 1:
@@ -158,14 +217,14 @@ def run(ctx):
             while root.parent is not None:
                 root = root.parent
             users.add(strip_generics(root.path))
-    want = {"metrics::recorder::LocalRecorderGuard::new", "<metrics::recorder::LocalRecorderGuard as core::ops::drop::Drop>::drop", "metrics::recorder::with_recorder"}
+    want = {strip_generics(newf.path) if newf else "<guard constructor>", "<metrics::recorder::LocalRecorderGuard as core::ops::drop::Drop>::drop", "metrics::recorder::with_recorder"}
     extra = sorted(u for u in users if u not in want and "::tests::" not in u)
     chk.ob("C01.b", "LOCAL_RECORDER [who-may-touch]", not extra and want <= users, f"only {sorted(u.split('::')[-1] for u in users)} touch the thread-local" if not extra and want <= users else f"unexpected users {extra} / missing {sorted(want - users)}")
     # with_local_recorder: guard live across f()
     wl = m.fn("metrics::recorder::with_local_recorder")
     if need(chk, "C01.b", "with_local_recorder", wl):
         b = wl.body
-        news = calls_to(wl, "LocalRecorderGuard::new")
+        news = [c for c in nonforeign_calls(wl) if _calls_role(c, ctors)]
         fcalls = [c for c in nonforeign_calls(wl) if c.is_("FnOnce::call_once") and (sym_arg(arg_syms(c)[0]) or (None,))[0] == 1]
         if len(news) != 1 or len(fcalls) != 1:
             chk.ob("C01.b", f"{wl.path} [guard scope]", False, f"expected one guard construction and one call of f, found {len(news)}/{len(fcalls)}", wl.loc())
@@ -196,8 +255,8 @@ def run(ctx):
             chk.ob("C01.d", f"{wl.path} [guard not returned]", "LocalRecorderGuard" not in wl.j.get("sig", "").split("->")[-1], "with_local_recorder's return type does not contain the guard", wl.loc(), nontrivial=False)
     sd = m.fn("metrics::recorder::set_default_local_recorder")
     if need(chk, "C01.b", "set_default_local_recorder", sd):
-        cs = calls_to(sd, "LocalRecorderGuard::new")
-        ok = len(cs) == 1 and len(nonforeign_calls(sd)) == 1 and (sym_arg(arg_syms(cs[0])[0]) or (None,))[0] == 0 and sym_is_call(Sym(sd).local(0), "LocalRecorderGuard::new")
+        cs = [c for c in nonforeign_calls(sd) if _calls_role(c, ctors)]
+        ok = len(cs) == 1 and len(nonforeign_calls(sd)) == 1 and (sym_arg(arg_syms(cs[0])[0]) or (None,))[0] == 0 and _sym_calls_role(Sym(sd).local(0), ctors)
         chk.ob("C01.b", f"{sd.path}", ok, "returns LocalRecorderGuard::new(recorder)" if ok else "does not simply return the guard built from its parameter", sd.loc())
 
     # ---------------- C01.c
@@ -206,7 +265,7 @@ def run(ctx):
         if f is None:
             continue
         for ff in f.region():
-            for pm in ff.j.get("promoted") or []:
+            for pm in ff.promoted_bodies():
                 for blk in pm["blocks"]:
                     for s in blk["s"]:
                         c = s.get("rv", {}).get("a", {}).get("const") if s["k"] == "assign" else None
